@@ -331,6 +331,30 @@ func c11(r *core.Run) {
 			if ic.field == "retrievalDataIndex" && ic.method == "DeleteInBatch" {
 				r.Check("C11.G2", core.Key("C11.G2", fn, "no data delete while pin counter > 0"), ic.in.Pos(), len(stillPinned) > 0 && !core.ReachableFromEdges(fn, stillPinned, ic.in, false),
 					"a chunk whose pin counter stays positive keeps its data", "from the edge PinCounter > 0 the data delete is still reachable")
+				// P4: the data deleted is that of the address being removed — never of the
+				// file root the call was made in the context of
+				okItem := false
+				if ld, ok := ic.in.Call.Args[len(ic.in.Call.Args)-1].(*ssa.UnOp); ok {
+					if al, ok := ld.X.(*ssa.Alloc); ok {
+						fromAddr, fromOther := false, false
+						for _, u := range core.Uses(al) {
+							st, ok := u.(*ssa.Store)
+							if !ok || st.Addr != ssa.Value(al) {
+								continue
+							}
+							if kc, _ := core.CallOf(st.Val); kc != nil && core.IsCallTo(kc, lsPkg+".addressToItem") {
+								if kc.Call.Args[0] == ssa.Value(fn.Params[2]) {
+									fromAddr = true
+								} else {
+									fromOther = true
+								}
+							}
+						}
+						okItem = fromAddr && !fromOther
+					}
+				}
+				r.Check("C11.P4", core.Key("C11.P4", fn, "data delete keyed by the removed address"), ic.in.Pos(), okItem,
+					"setRemove deletes chunk data only under the key of the address it was asked to remove", "the data index delete in setRemove is keyed by an item that does not come from addressToItem(addr) (e.g. the file root): removing one chunk deletes another chunk's data, which then reads as not found although it was never removed")
 			}
 		}
 	}
